@@ -27,7 +27,12 @@ def battery(req):
     enc = req["encoding"]
     ctx = req["ctx"]
     out = {"path": path, "hashseed": os.environ.get("PYTHONHASHSEED")}
-    lookup_kw = {"directories": [srcdir]}
+    lookup_kw = {"directories": list(req.get("dirs") or [srcdir])}
+    oenc = req.get("output_encoding")
+    tkw = {}
+    if oenc:
+        lookup_kw["output_encoding"] = oenc
+        tkw["output_encoding"] = oenc
     if req.get("input_encoding"):
         lookup_kw["input_encoding"] = req["input_encoding"]
     try:
@@ -35,14 +40,14 @@ def battery(req):
             with open(src, "rb") as f:
                 text = f.read().decode(enc)
             lk = mako.lookup.TemplateLookup(**lookup_kw)
-            t = mako.template.Template(text, uri=uri, lookup=lk, input_encoding=req.get("input_encoding"))
+            t = mako.template.Template(text, uri=uri, lookup=lk, input_encoding=req.get("input_encoding"), **tkw)
         elif path == "file":
             lk = mako.lookup.TemplateLookup(**lookup_kw)
-            t = mako.template.Template(filename=src, uri=uri, lookup=lk, input_encoding=req.get("input_encoding"))
+            t = mako.template.Template(filename=src, uri=uri, lookup=lk, input_encoding=req.get("input_encoding"), **tkw)
         elif path in ("moddir", "moddir-reuse"):
             lk = mako.lookup.TemplateLookup(module_directory=req["moddir"], **lookup_kw)
             t = mako.template.Template(filename=src, uri=uri, lookup=lk, module_directory=req["moddir"],
-                                       input_encoding=req.get("input_encoding"))
+                                       input_encoding=req.get("input_encoding"), **tkw)
         elif path == "lookup":
             kw = dict(lookup_kw)
             if req.get("moddir"):
@@ -56,7 +61,7 @@ def battery(req):
         elif path == "modtemplate":
             lk = mako.lookup.TemplateLookup(module_directory=req["moddir"], **lookup_kw)
             mod = mako.compat.load_module("mt_" + "".join(c if c.isalnum() else "_" for c in uri), req["modfile"])
-            t = mako.template.ModuleTemplate(mod, module_filename=req["modfile"], template_filename=src, lookup=lk)
+            t = mako.template.ModuleTemplate(mod, module_filename=req["modfile"], template_filename=src, lookup=lk, **tkw)
         else:
             raise ValueError(path)
     except Exception as e:
@@ -69,7 +74,8 @@ def battery(req):
         try:
             r = fn()
             if isinstance(r, bytes):
-                r = r.decode("utf-8")
+                # render() with an output encoding: must decode to what render_unicode() gives
+                r = r.decode(oenc or "utf-8")
             renders[name] = {"status": "ok", "text": r}
         except Exception as e:
             renders[name] = describe_exc(e)
@@ -94,7 +100,9 @@ def battery(req):
                 argv = []
                 for k, v in sorted(ctx.items()):
                     argv += ["--var", "%s=%s" % (k, v)]
-                argv += ["--template-dir", srcdir, src]
+                for d_ in (req.get("dirs") or [srcdir]):
+                    argv += ["--template-dir", d_]
+                argv += [src]
                 try:
                     mako.cmd.cmdline(argv)
                 except SystemExit as e:
